@@ -12,12 +12,13 @@ shared dump does); the theorems hold for every `P : Prog` with those functions (
 any dispatch table `impls`: the fragment never consults it).
 
 * **T1 `compile_preserves`** — forward simulation: for every function of a set `G` of functions of
-  the file that passes the decidable check `closedOK` (`Model/GoFrag.lean`: scalars and struct values (user structs, closure
-  environments), operators, struct construction / field access, `let`, `if`, `while`, calls inside
-  `G`, printing / `*_to_string` builtins; Go names pairwise distinct), every definite `Sem.apply` run (a value or a panic, with its stdout and extern
-  events) is reproduced by `callG` of the compiled function in the emitted file for some fuel, with
-  the corresponding value (`toGV`: `C01.toG` on scalars, struct values field by field) and the same
-  observable world.  `compile_preserves_fragment` is
+  the file that passes the decidable check `closedOK` (`Model/GoFrag.lean`: scalars, struct values (user structs, closure
+  environments) and enum values (recursive enums included), operators, struct / enum construction, field and payload
+  access, `match` on enums (type switch), on bool / integers / strings (value switch) and on unit, `let`, `if`, `while`,
+  calls inside `G`, printing / `*_to_string` builtins; Go names pairwise distinct), every definite `Sem.apply` run (a value
+  or a panic, with its stdout and extern events) is reproduced by `callG` of the compiled function in the emitted file for
+  some fuel, with the corresponding value (`toGV`: `C01.toG` on scalars, struct values field by field, an enum value as the
+  Go struct of its variant) and the same observable world.  `compile_preserves_fragment` is
   the instance for `inGoFragment`; `compile_preserves_run` the whole-program form
   (`runGo m F = Sem.run fuel P`).
 * **T3 `compile_order`** — the statements of `let x = v in body` are those of `v` followed by those
@@ -30,7 +31,7 @@ any dispatch table `impls`: the fragment never consults it).
   (`Go.Sem` is untyped; typing stays `./check C02`'s oracle on the real output).
 
 What is missing for the full property (C01 for the back end): the fragment (tuples,
-enums / `switch`, `Ref`, arrays, `Vec`, closures as values, `dyn`, `go`, floats are outside — those
+`Ref`, arrays, `Vec`, closures as values, `dyn`, `go`, floats are outside — those
 functions stay decided by the per-program oracles), divergence (forward simulation of definite
 runs only), and the composition with `eliminate_dead_vars` for a whole file (`dce_preserves` is
 per block, callees not DCE'd at the same time).
@@ -121,7 +122,7 @@ theorem compile_preserves_run (env : Env) (file : AFile) (n0 : Nat) (G : List St
     rw [funcs_goFilePre]; simp
   have hnd : ((goFilePreSt env file n0).1.funcs.map (·.name)).Nodup := by
     simp only [closedOK, fileOK, Bool.and_eq_true] at hG
-    exact of_decide_eq_true hG.1.1.1.1.1.1
+    exact of_decide_eq_true hG.1.1.1.1.1.1.1
   have hmainFind : (goFilePreSt env file n0).1.findFunc "main" = some mainFn := by
     have := find?_of_nodup (fun g : GFunc => g.name) _ hnd _ hmainMem
     simpa [GFile.findFunc, mainFn] using this
@@ -170,12 +171,14 @@ theorem compile_preserves_run (env : Env) (file : AFile) (n0 : Nat) (G : List St
 /-! ## statement level (what T1 is built from) -/
 
 /-- the hypotheses of the statement-level simulation at a program point, bundled: `e` is in the
-    fragment under the context `Γ`, the environments and worlds are related, the Go names `S` is
-    about to declare are new, the assignment target is a declared Go variable -/
+    fragment under the context `Γ` (and `K`: the variables whose enum variant an enclosing `match` arm
+    fixed), the environments and worlds are related, the Go names `S` is about to declare are new,
+    the assignment target is a declared Go variable -/
 structure Ready (env : Env) (file : AFile) (G : List String) (Bad : List String) (m : Mode) (st : St) (e : AExpr)
-    (Γ : Ctx) (ρ : Sem.Env) (w : World) (gρ : GEnv) (gw : GWorld) : Prop where
-  frag : fragA env file G Γ e = true
+    (Γ : Ctx) (K : KCtx) (ρ : Sem.Env) (w : World) (gρ : GEnv) (gw : GWorld) : Prop where
+  frag : fragA env file G Γ K e = true
   envs : EnvRel env Γ ρ gρ
+  known : KRel K ρ
   worlds : WRel w gw
   names : GInv Bad (compileA env m st e).1 gρ
   target : TgtOK m Γ gρ (aTy e)
@@ -186,11 +189,11 @@ structure Ready (env : Env) (file : AFile) (G : List String) (Bad : List String)
     an ANF expression of the fragment reproduce every definite `Sem.eval` run of it: same world, and
     in assign mode the target variable holds the corresponding value afterwards (`Concl`). -/
 theorem compile_stmts_preserve (env : Env) (file : AFile) (n0 : Nat) (G : List String)
-    (hG : closedOK env file n0 G = true) (P : Prog) (hP : P.fns = file.map AFn.toFn) (Bad : List String) (m : Mode) (st : St) (e : AExpr) (Γ : Ctx) (ρ : Sem.Env)
-    (w : World) (gρ : GEnv) (gw : GWorld) (h : Ready env file G Bad m st e Γ ρ w gρ gw) (fuel : Nat) :
+    (hG : closedOK env file n0 G = true) (P : Prog) (hP : P.fns = file.map AFn.toFn) (Bad : List String) (m : Mode) (st : St) (e : AExpr) (Γ : Ctx) (K : KCtx) (ρ : Sem.Env)
+    (w : World) (gρ : GEnv) (gw : GWorld) (h : Ready env file G Bad m st e Γ K ρ w gρ gw) (fuel : Nat) :
     Concl env (goFilePreSt env file n0).1 (compileA env m st e).1 m gρ gw (aTy e)
       (Sem.eval fuel P ρ w e.toExpr) :=
-  (sim_all (link_of_closed hG hP) fuel).a m st e Γ ρ w gρ gw Bad h.frag h.envs h.worlds h.names h.target h.blank h.callees
+  (sim_all (link_of_closed hG hP) fuel).a m st e Γ K ρ w gρ gw Bad h.frag h.envs h.known h.worlds h.names h.target h.blank h.callees
 
 /-- **T3 `compile_order`**: the Go statements of `let x = v in body` are those of `v`
     (`letPrefix`, which does not depend on `body`) followed by those of `body`; the first part runs
@@ -200,8 +203,8 @@ theorem compile_stmts_preserve (env : Env) (file : AFile) (n0 : Nat) (G : List S
     everything after it. -/
 theorem compile_order (env : Env) (file : AFile) (n0 : Nat) (G : List String)
     (hG : closedOK env file n0 G = true) (P : Prog) (hP : P.fns = file.map AFn.toFn) (Bad : List String) (m : Mode) (st : St) (x : String) (v : CExpr)
-    (body : AExpr) (ty : Ty) (Γ : Ctx) (ρ : Sem.Env) (w : World) (gρ : GEnv) (gw : GWorld)
-    (h : Ready env file G Bad m st (.letE x v body ty) Γ ρ w gρ gw) (fuel : Nat) :
+    (body : AExpr) (ty : Ty) (Γ : Ctx) (K : KCtx) (ρ : Sem.Env) (w : World) (gρ : GEnv) (gw : GWorld)
+    (h : Ready env file G Bad m st (.letE x v body ty) Γ K ρ w gρ gw) (fuel : Nat) :
     (compileA env m st (.letE x v body ty)).1 =
         letPrefix env st x v ++ (compileA env m (letBodySt env st x v) body).1 ∧
     (match Sem.eval fuel P ρ w v.toExpr with
@@ -212,8 +215,8 @@ theorem compile_order (env : Env) (file : AFile) (n0 : Nat) (G : List String)
          BlockS (goFilePreSt env file n0).1 gρ gw (letPrefix env st x v ++ rest) (.fail (.panic k) gw1) ∧ WRel w1 gw1
      | _ => True) :=
   ⟨compileA_let env m st x v body ty,
-   let_order (sim_all (link_of_closed hG hP) fuel).v (sim_all (link_of_closed hG hP) fuel).c m st x v body ty Γ ρ w gρ gw Bad
-     h.frag h.envs h.worlds h.names h.blank h.callees⟩
+   let_order (sim_all (link_of_closed hG hP) fuel).v (sim_all (link_of_closed hG hP) fuel).c m st x v body ty Γ K ρ w gρ gw Bad
+     h.frag h.envs h.known h.worlds h.names h.blank h.callees⟩
 
 /-- operands keep their ANF order in the emitted expression (`Go.Sem` evaluates `l` before `r`, and
     call arguments left to right) -/
@@ -287,6 +290,44 @@ private def exMk : AFn :=
     body := .ret (.constr (.struct "P") [.var "a/0" t32, .var "a/0" t32] (.struct "P")) }
 example : InGoFragment envP [exSum, exMk] 0 exSum ∧ InGoFragment envP [exSum, exMk] 0 exMk := by
   constructor <;> (unfold InGoFragment; decide +kernel)
+
+/-- enum values and `match` are inside: `enum Opt { None, Some(int32) }`, `fn get(o) { match o { None => 0, Some(x) => x } }`
+    (type switch, payload read in the arm that fixes the variant), `fn mk(a) { Some(a) }`, and a `main` that matches on
+    an integer (value switch with a default) and on unit (first arm in place) -/
+private def envE : Env :=
+  { enums := [{ name := "Opt", generics := [], variants := [("None", []), ("Some", [t32])] }] }
+private def tOpt : Ty := .enum "Opt"
+private def exGet : AFn :=
+  { name := "get", params := [("o/0", tOpt)], ret := t32,
+    body := .ret (.matchE (.var "o/0" tOpt)
+      [.mk (.tag 0 tOpt) (.ret (.imm (litI 0))),
+       .mk (.tag 1 tOpt) (.letE "x0" (.cget (.var "o/0" tOpt) (.enum "Opt" "Some" 1) 0 t32) (.ret (.imm (.var "x0" t32))) t32)]
+      .none t32) }
+private def exMkSome : AFn :=
+  { name := "mk", params := [("a/0", t32)], ret := tOpt,
+    body := .ret (.constr (.enum "Opt" "Some" 1) [.var "a/0" t32] tOpt) }
+private def exMainE : AFn :=
+  { name := "main", params := [], ret := .unit,
+    body :=
+      .letE "o/1" (.call (.var "mk" (.func [t32] tOpt)) [litI 5] tOpt)
+      (.letE "n/2" (.imm (.tag 0 tOpt))
+      (.letE "r/3" (.call (.var "get" (.func [tOpt] t32)) [.var "o/1" tOpt] t32)
+      (.letE "u/4" (.matchE (.var "r/3" t32)
+          [.mk (litI 5) (.ret (.call (.var "string_println" (.func [.string] .unit)) [.prim (.str "five") .string] .unit))]
+          (.some (.ret (.call (.var "string_println" (.func [.string] .unit)) [.prim (.str "other") .string] .unit))) .unit)
+      (.ret (.matchE (.var "u/4" .unit)
+          [.mk (.prim .unit .unit) (.ret (.call (.var "string_println" (.func [.string] .unit)) [.prim (.str "done") .string] .unit))]
+          .none .unit)) .unit) .unit) .unit) .unit }
+private def exFileE : AFile := [exGet, exMkSome, exMainE]
+example : InGoFragment envE exFileE 0 exGet ∧ InGoFragment envE exFileE 0 exMkSome ∧ InGoFragment envE exFileE 0 exMainE := by
+  refine ⟨?_, ?_, ?_⟩ <;> (unfold InGoFragment; decide +kernel)
+example : (Sem.run 200 (progOf exFileE)).status = "ok" ∧ (Sem.run 200 (progOf exFileE)).out = "five\ndone\n" := by
+  decide +kernel
+/-- reading a payload outside the arm that fixes the variant is outside the fragment -/
+private def exBadGet : AFn :=
+  { name := "bad", params := [("o/0", tOpt)], ret := t32,
+    body := .ret (.cget (.var "o/0" tOpt) (.enum "Opt" "Some" 1) 0 t32) }
+example : ¬ InGoFragment envE [exBadGet] 0 exBadGet := by unfold InGoFragment; decide +kernel
 
 /-- a function that builds a tuple is outside the fragment (the model still compiles it: the tie
     covers it, the theorem does not) -/
